@@ -336,7 +336,10 @@ static const halg_t halgs[HALG_COUNT] = {
 
 
 /* ------------------------------------------------------------------ helpers */
-static const int h_aligns_sub[] = { 0, 1, 3, 4, 8, 31, 63 };
+/* the 7 of DESIGN 9/C04 plus 16 and 32: one representative of every alignment class the transforms
+ * distinguish (mod 4: md5; mod 8: gost generic; mod 16: sha1/sha2 SIMD; mod 32: gost SSE/AVX) */
+static const int h_aligns_sub[] = { 0, 1, 3, 4, 8, 16, 31, 32, 63 };
+#define H_NSUB	9
 static const int h_aligns_3[] = { 0, 1, 31 };
 static const uint8_t h_poisons[2] = { 0x00, 0xA5 };	/* values written over the dead bytes of a context */
 #if H_LEVEL >= 2
